@@ -413,6 +413,28 @@ def gen_case(rng, tier, k):
             case["ops"].append({"kind": "lsmod", "inst": inst, "env": env,
                                 "name": name})
             continue
+        elif r < 0.66:
+            # one require statement node evaluated several times with a
+            # different module each time: the module spec is an identifier
+            # that names a string variable (loop variable or parameter)
+            picks = rng.sample(allmods, min(len(allmods),
+                                            rng.randrange(2, 4)))
+            form = rng.choice(["plain", "unq", "as", "unq"])
+            extra = "al" + rng.choice("123") if form == "as" else None
+            if rng.random() < 0.5:
+                stmts = [["for", "k_m", ["l", [["s", x] for x in picks]],
+                          [["req", form, {"id": "k_m"}, extra]]]]
+            else:
+                nfn[0] += 1
+                fname = f"imp_f{nfn[0]}"
+                stmts = [["deffn", fname, ["p"],
+                          [["req", form, {"id": "p"}, extra],
+                           ["ret", ["v", "p"]]]]]
+                # inside a function the names are bound in the call's own
+                # scope; what counts is which modules were loaded (the
+                # LOAD marks) and that later requires find them
+                stmts += [["expr", ["call", fname, [["s", x]]]]
+                          for x in picks]
         elif r < 0.90:
             stmts = [gen_use(scope)]
             if rng.random() < 0.3:
